@@ -277,7 +277,14 @@ func (c *Conc) PickUnknown(rng *rand.Rand) {
 		c.Unknown = ""
 	case 1:
 		var foreign []string
-		for _, o := range []*arch.Info{arch.X86_64, arch.X32, arch.I386, arch.ARM, arch.AARCH64} {
+		others := []*arch.Info{arch.X86_64, arch.X32, arch.I386, arch.ARM, arch.AARCH64}
+		// every second time from the nearest relative only (the other ABI of the same machine: its table is the one a lookup is
+		// most likely to fall back to or be confused with, and the names it has in addition are few)
+		sibling := map[*arch.Info]*arch.Info{arch.X32: arch.X86_64, arch.X86_64: arch.X32, arch.I386: arch.X86_64, arch.ARM: arch.AARCH64, arch.AARCH64: arch.ARM}
+		if sib := sibling[c.Arch]; sib != nil && rng.Intn(2) == 0 {
+			others = []*arch.Info{sib}
+		}
+		for _, o := range others {
 			for n := range o.SyscallNames {
 				if _, ok := c.Arch.SyscallNames[n]; !ok {
 					foreign = append(foreign, n)
